@@ -268,6 +268,9 @@ def _templates(nbody):
     T.append(("bom", [(1, "\ufeffa "), "a: b", (1, "\ufeff\n"), "c"]))
     T.append(("comment", ["k: a", (2, " #\n"), "b", (2, " #\n")]))
     T.append(("key-colon", ["a", (3, ": b"), ": v"]))
+    # an empty value followed by a (quoted) key at column 0
+    T.append(("empty-then-key", ["k:", (1, " \n#"), "\n", (1, "'\"ab "), "k2", (1, "'\" :"), (1, ": "), " w\n"]))
+    T.append(("quoted-keys", [(1, "'\"a"), "k", (1, "'\"a"), ":", (1, " \n"), (1, "'\"v\n"), "x", (1, "'\"\n"), "\nb: c"]))
     return T
 
 
@@ -288,14 +291,15 @@ def families(tier, seed):
         add("A", "sigma-N%d" % n, [(n, SIGMA)], "all strings of exactly %d chars over %r" % (n, SIGMA), required=False)
     # B: differential
     for n in range(0, (3 if q else 4) + 1):
-        add("B", "unicode-N%d" % n, [(n, None)], "all strings of exactly %d code points over full Unicode" % n, nt=(n >= 3))
+        # N=4 (thorough only) reaches PyYAML's tag-URI percent-escape scanner, whose byte arithmetic exceeds the case-split cap on one path: reported as inconclusive, not required
+        add("B", "unicode-N%d" % n, [(n, None)], "all strings of exactly %d code points over full Unicode" % n, nt=(n >= 3), required=(n <= 3))
     for n in ([4, 5] if q else [5, 6, 7]):
         add("B", "sub1-N%d" % n, [(n, SUB1)], "all strings of exactly %d chars over %r" % (n, SUB1), required=(n <= 4))
         add("B", "sub2-N%d" % n, [(n, SUB2)], "all strings of exactly %d chars over %r" % (n, SUB2), required=(n <= 4))
     for name, spec in _templates(6 if q else 8):
         nsym = sum(seg[0] for seg in spec if not isinstance(seg, str))
         add("A", "tpl-" + name, spec, "template %r with %d symbolic chars" % (_show(spec), nsym), required=False)
-        add("B", "tpl-" + name, spec, "template %r with %d symbolic chars" % (_show(spec), nsym), required=False)
+        add("B", "tpl-" + name, spec, "template %r with %d symbolic chars" % (_show(spec), nsym), required=True)
     return F
 
 
